@@ -232,11 +232,18 @@ func docJSON(d DocIn) string {
 			parts = append(parts, `"grace":"-5"`)
 		default:
 			parts = append(parts, `"fee_recipient":"`+feeHex+`"`, `"gas_limit":"30000000"`)
+			if v.NullLists {
+				// null scalars: encoding/json leaves the string fields empty, i.e. absent
+				parts = append(parts, `"grace":null`, `"min_value":null`)
+			}
 		}
 		if len(v.Relays) > 0 {
 			ents := make([]string, len(v.Relays))
 			for i, r := range v.Relays {
 				body := `{"min_value":"0.01"}`
+				if v.NullLists {
+					body = `{"min_value":"0.01","public_key":null,"grace":null,"fee_recipient":null}`
+				}
 				if r.Null {
 					body = "null"
 				} else if v.BadField == 5 && i == 0 {
@@ -278,6 +285,8 @@ func docJSON(d DocIn) string {
 				fields := []string{fmt.Sprintf(`"proposer":%q`, key)}
 				if v.BadField == 6 && i == 0 {
 					fields = append(fields, `"gas_limit":"-1"`)
+				} else if v.NullLists {
+					fields = append(fields, `"gas_limit":null`, `"grace":null`)
 				}
 				if p.Reset {
 					fields = append(fields, `"reset_relays":true`)
@@ -286,6 +295,9 @@ func docJSON(d DocIn) string {
 					rs := make([]string, len(p.Relays))
 					for j, r := range p.Relays {
 						body := fmt.Sprintf(`{"disabled":%v,"gas_limit":"1000000"}`, r.Disabled)
+						if v.NullLists {
+							body = fmt.Sprintf(`{"disabled":%v,"gas_limit":"1000000","public_key":null,"min_value":null}`, r.Disabled)
+						}
 						if r.Null {
 							body = "null"
 						}
